@@ -202,8 +202,10 @@ func TestC07(t *testing.T) {
 				n := rapid.IntRange(2, 5).Draw(rt, "n")
 				c := &CaseStream{Reuse: true}
 				kinds := map[string]bool{}
+				so := smallOpts()
+				so.HugeProb, so.HugeObj = 0, 0
 				for i := 0; i < n; i++ {
-					v, _ := GenValue(rt, tn, smallOpts())
+					v, _ := GenValue(rt, tn, so)
 					c.Items = append(c.Items, v)
 					if di := Types[tn].DynIndex(); di >= 0 && v.F[di].O != nil {
 						kinds[v.F[di].O.Type] = true
@@ -254,8 +256,10 @@ func TestC07(t *testing.T) {
 				}
 				c := &CaseStream{}
 				kinds := map[string]bool{}
+				so := smallOpts()
+				so.HugeProb, so.HugeObj = 0, 0 // the remainder is compared after every decode: keep the stream's total size moderate
 				for i := 0; i < n; i++ {
-					v, _ := GenValue(rt, frameOf(m), smallOpts())
+					v, _ := GenValue(rt, frameOf(m), so)
 					c.Items = append(c.Items, v)
 					if b := v.F[Types[v.Type].DynIndex()].O; b != nil {
 						kinds[b.Type] = true
